@@ -1448,6 +1448,15 @@ def expand_single_def_vars(fn, o, depth=3):
         ds = [d for d in local_defs(fn).get(o.a["local"], []) if d[1] != "partial"]
         if len(ds) == 1:
             return expand_single_def_vars(fn, _origin_of_def(fn, ds[0], 10, {o.a["local"]}), depth - 1)
+        if 1 < len(ds) <= 8 and fn.local_name(o.a["local"]) is None and not o.a.get("is_arg") and o.a["local"] not in mut_borrowed(fn):
+            # an unnamed temporary with a few definitions that was cut off by the depth limit: its alternatives
+            kids = []
+            for d_ in ds:
+                kd = _origin_of_def(fn, d_, 8, {o.a["local"]})
+                if kd.bb is None:
+                    kd = Origin(kd.k, kd.a, kd.kids, d_[0])
+                kids.append(expand_single_def_vars(fn, kd, depth - 1))
+            return Origin("phi", {"local": o.a["local"]}, kids)
         return o
     return Origin(o.k, o.a, [expand_single_def_vars(fn, k, depth) for k in o.kids], o.bb)
 
